@@ -488,29 +488,43 @@ def _skips_analysis_on_bool(h, ana):
     return None
 
 
+def _field_source(f, p):
+    """the operand a single-field place `x.k` was built from, when x is a tuple / struct aggregate of locals (also through
+    copies of x): `let (db, root) = scan_and_return(path)` or `ScannedDirectory { root, db }`, inlined"""
+    fs = proj_fields(place_projs(p)) if p is not None and place_projs(p) else []
+    if len(fs) != 1 or any(e == "*" for e in place_projs(p)[:0]):
+        return None
+    tl = place_local(p)
+    for _hop in range(4):
+        ds = f.whole_defs(tl)
+        if len(ds) == 1 and ds[0][0] == "assign" and ds[0][3][0] == "use" and op_local(ds[0][3][1]) is not None \
+                and not place_projs(op_place(ds[0][3][1])):
+            tl = op_local(ds[0][3][1])
+        else:
+            break
+    for d2 in f.whole_defs(tl):
+        if d2[0] != "assign" or d2[3][0] != "agg":
+            continue
+        if d2[3][1][0] == "tuple" and str(fs[0][1]).isdigit() and int(fs[0][1]) < len(d2[3][2]):
+            return d2[3][2][int(fs[0][1])]
+        if d2[3][1][0] == "adt" and len(d2[3][1]) > 3 and fs[0][1] in d2[3][1][3]:
+            return d2[3][2][d2[3][1][3].index(fs[0][1])]
+    return None
+
+
 def _root(f, op, depth=0):
     l = op_local(op)
     if l is None or depth > 10:
         return None
+    p0 = op_place(op)
+    if p0 is not None and [e for e in place_projs(p0) if e != "*"]:
+        src = _field_source(f, [place_local(p0), [e for e in place_projs(p0) if e != "*"]])
+        if src is not None:
+            return _root(f, src, depth + 1)
     for d in f.whole_defs(l):
         if d[0] == "assign" and d[3][0] == "ref":
             return _root(f, ["cp", d[3][2]], depth + 1)
         if d[0] == "assign" and d[3][0] == "use" and op_local(d[3][1]) is not None:
-            p = op_place(d[3][1])
-            fs = proj_fields(place_projs(p)) if p is not None and place_projs(p) else []
-            if len(fs) == 1 and (fs[0][0] == "tuple" or str(fs[0][0]).startswith("(")) and str(fs[0][1]).isdigit():
-                # a field of a tuple that was built from locals (`let (db, root) = scan_and_return(path)`, inlined)
-                tl = place_local(p)
-                for _hop in range(4):
-                    ds = f.whole_defs(tl)
-                    if len(ds) == 1 and ds[0][0] == "assign" and ds[0][3][0] == "use" and op_local(ds[0][3][1]) is not None \
-                            and not place_projs(op_place(ds[0][3][1])):
-                        tl = op_local(ds[0][3][1])
-                    else:
-                        break
-                for d2 in f.whole_defs(tl):
-                    if d2[0] == "assign" and d2[3][0] == "agg" and d2[3][1][0] == "tuple" and int(fs[0][1]) < len(d2[3][2]):
-                        return _root(f, d2[3][2][int(fs[0][1])], depth + 1)
             return _root(f, d[3][1], depth + 1)
         if d[0] == "call" and value_preserving(d[2]) and d[2]["args"]:
             return _root(f, d[2]["args"][0], depth + 1)
